@@ -187,10 +187,49 @@ def run_jobs(prop, mspec, tr):
         if need and j["job"].startswith("decode:") and (j["accepting"] == 0 or j["rejecting"] == 0):
             out["inconclusive"].append("%s: vacuous exploration (accepting=%d rejecting=%d)"
                                        % (j["job"], j["accepting"], j["rejecting"]))
+    only = mspec.get("only_classes")
+    if only:
+        raw_findings = [f for f in raw_findings if any((":" + c) in f["key"] for c in only)]
+    if mspec.get("std_config"):
+        try:
+            same, note = std_config_same(prop, prep)
+            out["summary"]["std_feature"] = note
+            if not same:
+                out["inconclusive"].append("the `std` feature changes function bodies: " + note)
+        except Exception as e:
+            out["inconclusive"].append("std configuration could not be compared: %s" % e)
     # ---- native replay of every counterexample ------------------------------------------------
     out["findings"], nvalid = replay_findings(prop, prep, raw_findings)
     out["validated"] += nvalid
     return out
+
+
+def std_config_same(prop, prep):
+    """Configurations quantifier of C01: dump the MIR again with `--features std` and compare every
+    function body with the no-std dump."""
+    from loader import dump_mir
+    import re
+    work = os.path.join(CACHE, "mir-" + prop.lower())
+    std_path, _ = dump_mir(REPO, work, features="std")
+
+    def bodies(path):
+        txt = open(path).read()
+        txt = re.sub(r"alloc\d+", "allocN", txt)
+        # `panic!("literal")` lowers to std::rt::begin_panic with std and to core::panicking::panic
+        # without: the same diverging call, the only expected textual difference
+        txt = txt.replace("std::rt::begin_panic::<&str>(", "panic(")
+        parts = re.split(r"\n(?=fn |const |static )", txt)
+        return {p.split("{", 1)[0].strip(): p for p in parts if p.startswith(("fn ", "const ", "static "))}
+    a, b = bodies(prep["mir"]), bodies(std_path)
+    norm = lambda k: re.sub(r"(std|core|alloc)::", "", k)
+    an = {norm(k): re.sub(r"(std|core|alloc)::", "", v) for k, v in a.items()}
+    bn = {norm(k): re.sub(r"(std|core|alloc)::", "", v) for k, v in b.items()}
+    only_std = sorted(set(bn) - set(an))
+    only_nostd = sorted(set(an) - set(bn))
+    differ = sorted(k for k in set(an) & set(bn) if an[k] != bn[k])
+    note = "%d functions compared; only with std: %s; only without: %s; differing bodies: %s" % (
+        len(set(an) & set(bn)), only_std[:3], only_nostd[:3], differ[:3])
+    return (not differ and not only_nostd), note
 
 
 def merge_by_name(results):
@@ -232,10 +271,18 @@ def replay_findings(prop, prep, raw):
             per_key[rec["key"]] = per_key.get(rec["key"], 0) + 1
             if per_key[rec["key"]] > 2:
                 continue
-            native_out = concrete.normalize_native(nat.ask(rec_command(rec)))
-            n += 1
+            # a finding may carry several concretisations of the same abstract input (e.g. different
+            # trailing bytes): it is reproduced if the native build misbehaves on any of them
+            native_out, ok = "", False
+            for cmd in (rec.get("commands") or [rec_command(rec)]):
+                native_out = concrete.normalize_native(nat.ask(cmd))
+                n += 1
+                if reproduces(rec, native_out):
+                    ok = True
+                    rec["command"] = cmd
+                    break
             rec["native"] = native_out
-            rec["reproduced"] = reproduces(rec, native_out)
+            rec["reproduced"] = ok
             path = os.path.join(rdir, "%s-%d.json" % (rec["key"].replace(":", "_").replace("/", "_")[:80], i))
             with open(path, "w") as f:
                 json.dump(rec, f, indent=1, default=str)
